@@ -162,6 +162,9 @@ deriving Repr, DecidableEq, Inhabited
 def IdSpec.init (lo hi : Nat) (random : Bool) : IdSpec :=
   ⟨[], if lo = 0 then Nng.Generated.c18IdDefaultLo else lo, if hi = 0 then Nng.Generated.c18IdDefaultHi else hi, 0, random⟩
 
+/-- finalising the map forgets every entry; the id cursor is kept: ids are not reissued before the range wraps -/
+def IdSpec.fini (s : IdSpec) : IdSpec := { s with m := [] }
+
 def IdSpec.get (s : IdSpec) (k : Nat) : Nat := (s.m.lookup k).getD 0
 
 def IdSpec.has (s : IdSpec) (k : Nat) : Bool := (s.m.lookup k).isSome
